@@ -23,7 +23,7 @@ import cloudpickle
 from harness import core, learners as L, xlearner as X
 
 MODULES = ["AdaptiveProofs.Props.C13"]
-KINDS = ["l1d", "l1d_curv", "l1d_vec", "l1d_tri", "l1d_uni", "lnd2", "lnd3", "l2d", "avg", "avg1d", "seq", "integ",
+KINDS = ["l1d", "l1d_curv", "l1d_vec", "l1d_tri", "l1d_uni", "lnd2", "lnd3", "lnd2_curv", "l2d", "avg", "avg1d", "seq", "integ",
          "bal:l1d", "bal:seq", "bal:avg", "bal:lnd2", "bal:npoints:l1d", "bal:cycle:seq", "bal:loss:l1d_vec", "ds:l1d_vec", "ds:l1d", "ds:seq", "ds:avg", "ds:lnd2"]
 CHANNELS = ["save_gz", "save_plain", "pickle", "cloudpickle", "copy_from"]
 
@@ -79,7 +79,7 @@ def case(arg):
     ops = L.gen_ops(random.Random(seed), X.base_kind(kn), nops)
     b = kn.split(":")[-1]
     res = {"kind": kn, "seed": seed, "nops": nops, "fail": None, "channels": 0}
-    early = b in ("lnd2", "lnd3", "l2d") and rng.random() < 0.3
+    early = b in ("lnd2", "lnd3", "lnd2_curv", "l2d") and rng.random() < 0.3
     res["early"] = early
     try:
         if early:
